@@ -428,6 +428,40 @@ def desugar(F):
                 b._cfg_cache = None
                 done.append((c.split('::')[-1], p))
                 continue
+            if c == _O + 'filter' and len(t['args']) == 2:
+                # opt.filter(|v| p(v))  ->  match opt { Some(v) if p(&v) => Some(v), _ => None }
+                recv = t['args'][0]
+                fcl = _closure_of(F, b, t['args'][1])
+                pl = _option_payload(b.locals[recv['p']['l']]['ty']) if recv['k'] != 'const' and not recv['p']['proj'] else None
+                if fcl is None or fcl.argc != 2 or pl is None:
+                    continue
+                none = {'k': 'agg', 'ak': 'adt', 'adt': 'std::option::Option', 'variant': 0, 'vname': 'None', 'fields': [], 'ops': []}
+                payload_pl = {'l': recv['p']['l'], 'proj': [{'dc': 1, 'name': 'Some'}, {'f': 0, 'name': '0', 'ty': pl}]}
+                b.locals.append({'ty': 'isize', 'name': None, 'user': False})
+                dl = {'l': len(b.locals) - 1, 'proj': []}
+                b.locals.append({'ty': '&' + pl, 'name': None, 'user': False})
+                rl = {'l': len(b.locals) - 1, 'proj': []}
+                b.locals.append({'ty': 'bool', 'name': None, 'user': False})
+                tl = {'l': len(b.locals) - 1, 'proj': []}
+                b_none = len(b.blocks)
+                b.blocks.append({'stmts': [dict(pos, dst=dst, rv=none)], 'cleanup': False, 'term': dict(pos, k='goto', target=target)})
+                b_keep = len(b.blocks)
+                b.blocks.append({'stmts': [dict(pos, dst=dst, rv=_agg('Some', {'k': 'move', 'p': payload_pl}))], 'cleanup': False, 'term': dict(pos, k='goto', target=target)})
+                b_test = len(b.blocks)
+                b.blocks.append({'stmts': [], 'cleanup': False, 'term': dict(pos, k='switch', on={'k': 'move', 'p': tl}, targets=[[0, b_none]], otherwise=b_keep, desugared='filter')})
+                b_call = len(b.blocks)
+                b.blocks.append({'stmts': [dict(pos, dst=rl, rv={'k': 'ref', 'mut': False, 'p': payload_pl})], 'cleanup': False,
+                                 'term': dict(pos, k='call', func={'k': 'const', 'fn': 'std::ops::FnOnce::call_once', 'dbg': 'desugared closure call'},
+                                              args=[t['args'][1], {'k': 'move', 'p': rl}], dst=tl, target=b_test)})
+                cal = type('B', (), {})()
+                cal.locals, cal.blocks, cal.path = copy.deepcopy(fcl.locals), copy.deepcopy(fcl.blocks), fcl.path
+                splice(b, b_call, cal)
+                _retire_closure(F, fcl, p)
+                b.blocks[bi]['stmts'].append(dict(pos, dst=dl, rv={'k': 'discr', 'p': {'l': recv['p']['l'], 'proj': []}}))
+                b.blocks[bi]['term'] = dict(pos, k='switch', on={'k': 'move', 'p': dl}, targets=[[0, b_none]], otherwise=b_call, desugared='filter')
+                b._cfg_cache = None
+                done.append(('filter', p))
+                continue
             spec = COMBINATORS.get(c)
             if spec is None:
                 continue
